@@ -138,8 +138,38 @@ func checkBase3(w *W, prop string, level int, s string, v *spec.V3, exp int, see
 	}
 }
 
+// otherVersionPrelude uses the OTHER CVSS version's package first, so that state shared between the two
+// packages (if a change introduced any) is already filled when the version under test is used.
+func otherVersionPrelude(r *Run, v2First bool) {
+	n := 0
+	if v2First {
+		for bi := 0; bi < nBase2; bi++ {
+			var v spec.V2
+			base2(&v, bi)
+			temporal2(&v, bi%100)
+			env2(&v, bi%nEnv2)
+			if o, err, _ := lib.Decode(lib.K2E, v.String(), false); err == nil {
+				o.Score()
+				n++
+			}
+		}
+	} else {
+		for bi := 0; bi < nBase3; bi += 3 {
+			v := newV3(bi%2, bi)
+			rng := r.Rng(uint64(bi) + 1<<50)
+			randOptional3(&v, spec.LEnv, rng)
+			if o, err, _ := lib.Decode(lib.K3E, render3(&v, spec.LEnv, nil), false); err == nil {
+				o.Score()
+				n++
+			}
+		}
+	}
+	r.Extra("vectors_of_the_other_CVSS_version_decoded_first", n)
+}
+
 func runC01(r *Run) int {
 	r.CleanOut()
+	otherVersionPrelude(r, true)
 	tab := spec.Tables3()
 	orders := r.Pick(3, 40)
 	seen := &scoreSet{}
@@ -241,6 +271,7 @@ func runC01(r *Run) int {
 
 func runC02(r *Run) int {
 	r.CleanOut()
+	otherVersionPrelude(r, true)
 	seen := &scoreSet{}
 	var nontrivial atomic.Int64
 	envFrac := r.Pick(4, 1) // every envFrac-th vector also through the environmental decoder
@@ -436,6 +467,7 @@ func (b *bitset) count() int64 {
 
 func runC03(r *Run) int {
 	r.CleanOut()
+	otherVersionPrelude(r, true)
 	tab := spec.Tables3()
 	// (0) re-validate the table against direct big.Rat evaluation on a sample
 	{
@@ -552,6 +584,25 @@ func runC03(r *Run) int {
 			w.Sample(map[string]interface{}{"vector": s, "expected_env": float64(exp.Env) / 10, "built": "Decode"})
 		}
 	})
+	// (b') vectors decoded early in (b) are decoded again after hundreds of thousands of other distinct vectors
+	if !r.Thorough() {
+		r.Parallel(4000, 64, func(w *W, i int) {
+			rng := r.Rng(uint64(i) + 1<<40)
+			v := represent3(rng.IntN(nEff3), rng.IntN(100), rng, nil)
+			exp := spec.Score3(&v)
+			respell(&v, spec.LEnv, rng)
+			var sh *rand.Rand
+			if rng.IntN(2) == 0 {
+				sh = rng
+			}
+			s := render3(&v, spec.LEnv, sh)
+			w.Eval(1)
+			w.Count("vectors_decoded_again_after_many_others")
+			if _, _, e, ok := obsScores3(w, spec.LEnv, s); ok && !tenthEq(e, exp.Env) {
+				w.Violate(Violation{Monitor: "C03", Check: "environmental score of a vector decoded again after many other vectors equals the exact FIRST value", Case: decodeCase(lib.K3E, s, false), Observed: e, Expected: float64(exp.Env) / 10})
+			}
+		})
+	}
 	// (c) seeded samples of the full version x base x environmental x temporal space (direct)
 	if !r.Thorough() {
 		nS := 20000000
